@@ -309,7 +309,20 @@ func (vc *VC) havocHeap(s *State, why string) {
 	if vc.entry != nil && !vc.modAll && !vc.quiet {
 		vc.oblige(s, "frame", "havoc", "code that may modify the whole heap ("+why+") needs 'modifies *'", vc.curPos, False)
 	}
-	s.heap = map[string]*Term{}
+	keep := map[string]*Term{}
+	for k, v := range s.heap {
+		if strings.HasPrefix(k, "GH.") {
+			keep[k] = v
+		}
+	}
+	for k := range vc.heapSorts {
+		if strings.HasPrefix(k, "GH.") {
+			if _, ok := keep[k]; !ok {
+				keep[k] = vc.heapArr(s, k, vc.heapSorts[k])
+			}
+		}
+	}
+	s.heap = keep
 	vc.epochCtr++
 	s.epoch = fmt.Sprintf("h%d", vc.epochCtr)
 	na := Fresh("alloc", SInt)
